@@ -33,6 +33,8 @@ type genCfg struct {
 	guardEmits  bool
 	loops       bool // allow bindings nodes that may cycle
 	maxNodes    int
+	ineqSuffix  string // appended to the inequality variable's name (run-specific names defeat process-wide caches)
+	ineqOften   bool
 }
 
 var constVals = []interface{}{1.0, 2.0, "x", "y", true, nil, 1.5}
@@ -62,6 +64,8 @@ var msgKeys = []string{"a", "b", "c"}
 var bsKeys = []string{"n", "f", "s"}
 var varNames = []string{"?v", "?w"}
 
+var ineqName = "?<n"
+
 func genMsgPattern(c *sim.Ctx, keys []string, ineq bool) interface{} {
 	if c.Chance(1, 12, "scalarpat") {
 		// a bare scalar pattern (a null pattern is "no pattern" and is generated as such)
@@ -82,7 +86,7 @@ func genMsgPattern(c *sim.Ctx, keys []string, ineq bool) interface{} {
 			p[k] = "??o"
 		case 8:
 			if ineq {
-				p[k] = "?<n"
+				p[k] = ineqName
 			} else {
 				p[k] = "?v"
 			}
@@ -176,6 +180,7 @@ func genAction(c *sim.Ctx, cfg genCfg, names []string, guard bool) *ref.Action {
 }
 
 func genSpec(c *sim.Ctx, cfg genCfg) *ref.Spec {
+	ineqName = "?<n" + cfg.ineqSuffix
 	nn := 2 + c.Intn(cfg.maxNodes-1, "nnodes")
 	names := make([]string, nn)
 	for i := range names {
@@ -262,7 +267,7 @@ func genBindings(c *sim.Ctx, cfg genCfg) map[string]interface{} {
 				bs["k!"] = genValue(c, 0)
 			}
 		case 4:
-			bs["?<n"] = []interface{}{1.0, 2.0, 1.5}[c.Intn(3, "bound")]
+			bs[ineqName] = []interface{}{1.0, 2.0, 1.5}[c.Intn(3, "bound")]
 		case 5:
 			bs["next"] = fmt.Sprintf("n%d", c.Intn(3, "nextnode"))
 		case 6:
